@@ -1,8 +1,8 @@
 #!/bin/sh
 # run every claimed quick check on the current tree and print one line each (regression after shared changes)
-cd /verif
+cd "$(dirname "$0")/.." || exit 2
 for p in $(python3 -c "import json;print(' '.join(c['property'] for c in json.load(open('MANIFEST.json'))['checks']))" 2>/dev/null || python3 -c "
 import sys; sys.path.insert(0,'tools'); import props; print(' '.join(sorted(props.SPECS)))"); do
-  ./check $p --tier ${1:-quick} > /tmp/checkall-$p.log 2>&1; rc=$?
-  echo "$p rc=$rc $(grep -c '^VIOLATION' /tmp/checkall-$p.log) violations; $(tail -1 /tmp/checkall-$p.log | cut -c1-160)"
+  ./check $p --tier ${1:-quick} > ${CHECKALL_LOGDIR:-/tmp}/checkall-$p.log 2>&1; rc=$?
+  echo "$p rc=$rc $(grep -c '^VIOLATION' ${CHECKALL_LOGDIR:-/tmp}/checkall-$p.log) violations; $(tail -1 ${CHECKALL_LOGDIR:-/tmp}/checkall-$p.log | cut -c1-160)"
 done
